@@ -175,6 +175,8 @@ def tiny_shapes():
         ("offset/wrap/chain", b12, [("chain", 0, 4, (1, 2)), ("wrap", 1, 8), ("offset", 2, 4, 3)], 3),
         ("rev/offset", b12, [("offset", 0, 6, 2), ("rev", 1, 6, 2)], 2),
         ("sector", b12, [("sector", 0, 7, 3)], 1),
+        ("empty window", b12, [("offset", 0, 0, 3)], 1),
+        ("offset/empty wrap/chain", b12, [("chain", 0, 4, (1, 2)), ("wrap", 1, 0), ("offset", 2, 4, 3)], 3),
     ]
     return shapes
 
